@@ -76,7 +76,19 @@ class Build:
         self.chibi = os.path.join(bdir, "chibi-scheme")
         self.flags = COMMON + " " + VARIANTS[variant]
 
+    def touch(self):
+        """Keep the cached build alive while a long check is using it (cleanup drops builds unused for hours)."""
+        now = time.time()
+        if now - getattr(self, "_touched", 0) > 300:
+            self._touched = now
+            for p in (os.path.join(self.bdir, ".verif-ok"), self.src):
+                try:
+                    os.utime(p)
+                except OSError:
+                    pass
+
     def env(self, extra=None):
+        self.touch()
         e = dict(os.environ)
         for k in list(e):
             if k.startswith("CHIBI_VERIF"):
@@ -172,7 +184,7 @@ def ensure(variant, repo=None, quiet=False):
                 except OSError:
                     continue        # removed by a concurrent check
                 if name.startswith("src-") and name != "src-" + thash:
-                    if age > 3600:
+                    if age > 5 * 3600:
                         _rm(p)
                 if name.startswith("lock-") and age > 86400:
                     try:
@@ -184,7 +196,7 @@ def ensure(variant, repo=None, quiet=False):
                     # other trees (scratch worktrees used by self-tests) may be in use right now:
                     # drop a build only when it has not been used for a while
                     try:
-                        stale = time.time() - os.path.getmtime(okf if os.path.exists(okf) else p) > 1800
+                        stale = time.time() - os.path.getmtime(okf if os.path.exists(okf) else p) > 4 * 3600
                     except OSError:
                         stale = False
                     if stale:
